@@ -5,6 +5,9 @@ import (
 	"fmt"
 	"github.com/deepteams/webp/animation"
 	"image"
+	"image/color"
+	"image/draw"
+	"math/rand"
 
 	webp "github.com/deepteams/webp"
 
@@ -21,6 +24,52 @@ type c02Case struct {
 	Class, Alpha, Type string
 	W, H               int
 	Lossless           bool
+	View               bool // the source is handed over as a sub-image view of a larger parent (stride > width)
+}
+
+// viewOf places a concrete image inside a larger parent of its own type and returns the sub-image view: same bounds,
+// same colours, another stride and a Pix slice that goes on beyond the picture. The parent's other pixels are opaque.
+func viewOf(r *rand.Rand, src image.Image) image.Image {
+	b := src.Bounds()
+	pr := image.Rect(b.Min.X-r.Intn(4), b.Min.Y-r.Intn(3), b.Max.X+1+r.Intn(2*b.Dx()+2), b.Max.Y+r.Intn(3))
+	type sub interface {
+		draw.Image
+		SubImage(image.Rectangle) image.Image
+	}
+	var parent sub
+	switch t := src.(type) {
+	case *image.Paletted:
+		p := image.NewPaletted(pr, t.Palette)
+		for i, pc := range t.Palette {
+			if _, _, _, a := pc.RGBA(); a == 0xffff {
+				for k := range p.Pix {
+					p.Pix[k] = uint8(i)
+				}
+				break
+			}
+		}
+		for y := b.Min.Y; y < b.Max.Y; y++ { // indices copied as they are (a palette may hold the same colour twice)
+			copy(p.Pix[p.PixOffset(b.Min.X, y):p.PixOffset(b.Min.X, y)+b.Dx()], t.Pix[t.PixOffset(b.Min.X, y):])
+		}
+		return p.SubImage(b)
+	case *image.NRGBA:
+		parent = image.NewNRGBA(pr)
+	case *image.RGBA:
+		parent = image.NewRGBA(pr)
+	case *image.NRGBA64:
+		parent = image.NewNRGBA64(pr)
+	case *image.Gray:
+		parent = image.NewGray(pr)
+	default:
+		return src
+	}
+	draw.Draw(parent, pr, image.NewUniform(color.NRGBA{90, 160, 20, 255}), image.Point{}, draw.Src)
+	for y := b.Min.Y; y < b.Max.Y; y++ {
+		for x := b.Min.X; x < b.Max.X; x++ {
+			parent.Set(x, y, src.At(x, y))
+		}
+	}
+	return parent.SubImage(b)
 }
 
 func runC02(c *ev.Ctx) {
@@ -63,6 +112,18 @@ func runC02(c *ev.Ctx) {
 		if c.Thorough() && i%50 == 0 {
 			cc.W, cc.H = 100+r.Intn(300), 100+r.Intn(300)
 		}
+		if i%15 == 11 {
+			// views: a sub-image of a larger parent, with the transparency somewhere the first w*h bytes of Pix need not
+			// reach (one pixel, or the bottom rows only)
+			cc.View = true
+			cc.Type = []string{"Paletted", "NRGBA", "RGBA", "NRGBA64", "Paletted", "Gray"}[(i/15)%6]
+			cc.Alpha = pickS(r, "onepix", "onepix", "binary", "opaque", "gradient")
+			cc.W, cc.H = max(cc.W, 2), max(cc.H, 4)
+			cc.Lossless = (i/90)%3 == 0
+			if cc.Type == "Paletted" { // few colours, so that the translucent one gets its own palette entry
+				cc.Class = pickS(r, "pal16", "pal4", "pal64", "checker", "flat")
+			}
+		}
 		cases = append(cases, ev.Case{Idx: i, Desc: fmt.Sprintf("%+v", cc), Data: cc})
 	}
 	c.RunCases(cases, 0, func(cs ev.Case) { c02One(c, cs, pc) })
@@ -82,7 +143,16 @@ func c02One(c *ev.Ctx, cs ev.Case, pc *pairCover) {
 	if r.Intn(4) == 0 {
 		base = img.Shift(base, r.Intn(30)-8, r.Intn(30)-8)
 	}
+	if cc.View && cc.Alpha == "onepix" { // the one translucent pixel sits in the lower half
+		for k := 3; k < len(base.Pix); k += 4 {
+			base.Pix[k] = 255
+		}
+		base.Pix[base.PixOffset(base.Rect.Min.X+r.Intn(cc.W), base.Rect.Min.Y+cc.H/2+r.Intn(cc.H-cc.H/2))+3] = uint8(r.Intn(255))
+	}
 	src := img.AsType(r, base, cc.Type)
+	if cc.View {
+		src = viewOf(r, src)
+	}
 	o := legalOpts(r, cc.Lossless)
 	if o.Pass > 3 && cc.W*cc.H > 4000 {
 		o.Pass = 3
